@@ -95,12 +95,18 @@ def e2e_rows(job):
         cands = row["cands"]
         for code, args in zip(row["row"], argseq):
             defs = [f"function g({', '.join(f'{t} p{j}' for j, t in enumerate(sig))}) -> int {{ return {101 + i}; }}\n" for i, sig in enumerate(cands)]
+            variants = [("", defs)]
+            if len(cands) == 2:
+                # one overload of the set is exported, the other is not (in the set's order): resolution is the same
+                variants.append(("exported-last", [defs[0], "export " + defs[1]]))
+                variants.append(("exported-first", ["export " + defs[0], defs[1]]))
             caller = f"export function f({', '.join(f'{t} a{j}' for j, t in enumerate(args))}) -> int\n{{\n  return g({', '.join(f'a{j}' for j in range(len(args)))});\n}}\n"
             # the caller stands after, between and before the overloads: resolution does not depend on where a function is declared
-            for pos in range(len(cands), -1, -1):
+            for vname, defs in variants:
+             for pos in (range(len(cands), -1, -1) if vname == "" else (len(cands),)):
               src = "".join(defs[:pos]) + caller + "".join(defs[pos:])
-              case = {"overloads": cands, "call_argument_types": args, "prescribed": describe(code, cands), "source": src, "caller_position": pos}
-              for opt in ((False, True) if pos == len(cands) else (False,)):
+              case = {"overloads": cands, "call_argument_types": args, "prescribed": describe(code, cands), "source": src, "caller_position": pos, "variant": vname}
+              for opt in ((False, True) if pos == len(cands) and vname == "" else (False,)):
                   c2 = dict(case, optimize=opt)
                   try:
                       with time_limit(300):       # wall-clock guard only; a loaded machine must not turn into a verdict
